@@ -55,6 +55,9 @@ func (p *Program) runScan(sc *Scan) *UnitResult {
 		}
 		return res
 	}
+	if sc.Kind == "extcalls" {
+		return p.scanExtCalls(sc, o, res, allowed)
+	}
 	for key, fn := range p.fnByKey {
 		if fn.Pkg == nil || fn.Pkg.Pkg.Path() != sc.Pkg {
 			continue
@@ -147,4 +150,132 @@ func writesTarget(addr ssa.Value, sc *Scan) bool {
 		}
 	}
 	return false
+}
+
+// scanExtCalls: effect discipline. Every function of the package that statically calls (or takes the value of)
+// a function matching one of the target patterns, or reads/writes a package-level variable matching one, must
+// be listed. Patterns: "<pkgpath>.*" or "<pkgpath>.<Name>" (Name is a function, a method name "(T).M" /
+// "(*T).M", or a variable); a leading '-' excludes (applied after the inclusions).
+func (p *Program) scanExtCalls(sc *Scan, o *Obl, res *UnitResult, allowed map[string]bool) *UnitResult {
+	var incl, excl []string
+	for _, t := range strings.Split(sc.Target, ",") {
+		if strings.HasPrefix(t, "-") {
+			excl = append(excl, t[1:])
+		} else if t != "" {
+			incl = append(incl, t)
+		}
+	}
+	match := func(pats []string, pkg, name string) bool {
+		for _, pt := range pats {
+			i := strings.LastIndex(pt, ".")
+			if strings.HasSuffix(pt, ")") || i < 0 {
+				continue
+			}
+			pp, pn := pt[:i], pt[i+1:]
+			if j := strings.Index(pt, ".("); j >= 0 {
+				pp, pn = pt[:j], pt[j+1:]
+			}
+			if pp == pkg && (pn == "*" || pn == name) {
+				return true
+			}
+		}
+		return false
+	}
+	hit := func(pkg, name string) bool { return match(incl, pkg, name) && !match(excl, pkg, name) }
+	extName := func(v ssa.Value) (string, string, bool) {
+		switch x := v.(type) {
+		case *ssa.Function:
+			if x.Pkg != nil {
+				return x.Pkg.Pkg.Path(), x.Name(), true
+			}
+			if recv := x.Signature.Recv(); recv != nil {
+				t := recv.Type()
+				ptr := ""
+				if pt, ok := t.(*types.Pointer); ok {
+					t = pt.Elem()
+					ptr = "*"
+				}
+				if n, ok := t.(*types.Named); ok && n.Obj().Pkg() != nil {
+					return n.Obj().Pkg().Path(), "(" + ptr + n.Obj().Name() + ")." + x.Name(), true
+				}
+			}
+		case *ssa.Global:
+			if x.Pkg != nil {
+				return x.Pkg.Pkg.Path(), x.Name(), true
+			}
+		}
+		return "", "", false
+	}
+	type off struct{ caller, callee string }
+	offs := map[off]bool{}
+	used := map[string]bool{}
+	nfound := 0
+	for key, fn := range p.fnByKey {
+		if fn.Pkg == nil || fn.Pkg.Pkg.Path() != sc.Pkg {
+			continue
+		}
+		name := strings.TrimPrefix(shortKey(key), fn.Pkg.Pkg.Name()+".")
+		var walk func(f *ssa.Function)
+		walk = func(f *ssa.Function) {
+			for _, b := range f.Blocks {
+				for _, in := range b.Instrs {
+					var ops [16]*ssa.Value
+					for _, op := range in.Operands(ops[:0]) {
+						if op == nil || *op == nil {
+							continue
+						}
+						pk, nm, ok := extName(*op)
+						if !ok {
+							continue
+						}
+						if fnv, isFn := (*op).(*ssa.Function); isFn && fnv.Signature.Recv() != nil && fnv.Pkg != nil {
+							t := fnv.Signature.Recv().Type()
+							ptr := ""
+							if pt, ok := t.(*types.Pointer); ok {
+								t = pt.Elem()
+								ptr = "*"
+							}
+							if n, ok := t.(*types.Named); ok {
+								nm = "(" + ptr + n.Obj().Name() + ")." + fnv.Name()
+							}
+						}
+						if hit(pk, nm) {
+							nfound++
+							used[name] = true
+							if !allowed[name] {
+								offs[off{name, pk + "." + nm}] = true
+							}
+						}
+					}
+				}
+			}
+			for _, a := range f.AnonFuncs {
+				walk(a)
+			}
+		}
+		walk(fn)
+	}
+	var offenders []string
+	for k := range offs {
+		offenders = append(offenders, k.caller+" -> "+k.callee)
+	}
+	sort.Strings(offenders)
+	var stale []string
+	for a := range allowed {
+		if !used[a] {
+			stale = append(stale, a)
+		}
+	}
+	sort.Strings(stale)
+	if len(offenders) == 0 {
+		o.Status = "unsat"
+		o.Output = fmt.Sprintf("%d references to {%s} in %s, all from the %d listed functions", nfound, sc.Target, sc.Pkg, len(allowed))
+		if len(stale) > 0 {
+			o.Output += "; listed but no longer referencing: " + strings.Join(stale, ", ")
+		}
+	} else {
+		o.Status = "sat"
+		o.Output = "references outside the listed functions: " + strings.Join(offenders, "; ")
+	}
+	return res
 }
